@@ -172,6 +172,17 @@ def run_grid(shard, ctx):
                 ov = [(0, 'A1', x)] + ([] if blank else [(0, 'B1', n)])
                 r.count('digit_count_supplied_indirectly')
                 _check(r, fn, text, n, book.value(0, cell, ov), 'digits-via:' + cell, mon)
+    # digit counts far beyond what a double holds: "a value already representable at the requested precision is returned unchanged"
+    if 'f' not in shard:
+        for text in (f'{sign}{ip}.5', f'{sign}{ip}.0625', f'{sign}{ip}.1235'):
+            x = float(text)
+            for n in (17, 20, 100, 308, 320, 331, 400, 1000, 100000):
+                ov = [(0, 'A1', x), (0, 'B1', n)]
+                for (fn, cell), out in zip(FCELL.items(), book.values(0, list(FCELL.values()), ov)):
+                    r.ev()
+                    r.count('digit_counts_beyond_a_double')
+                    if not outcome_matches(out, [x], exact=True):
+                        report(r, ID, None, {'fn': fn, 'text': text, 'digits': n, 'how': 'override'}, out.brief(), x, monitor='decimal-quantize')
     r.nontrivial_disjoint += nt
     r.sample({'text': f'{sign}{ip}.{fl[len(fl) // 2]:04d}', 'digits': DIGITS, 'functions': list(FCELL)})
 
